@@ -42,7 +42,10 @@ type c16Conn struct {
 	wdl        time.Time
 	wdlChanged chan struct{}
 	afterWrite func(p []byte) // called after the datagram is on the wire, before WriteTo returns
+	refuse     atomic.Bool    // WriteTo fails (a connected UDP socket after an ICMP error)
 }
+
+var errC16Refused = errors.New("c16: transport refused the datagram") //nolint:gochecknoglobals
 
 func c16Wrap(ep *vEndpoint) *c16Conn {
 	return &c16Conn{vEndpoint: ep, wdlChanged: make(chan struct{})}
@@ -72,6 +75,9 @@ func (c *c16Conn) setAfterWrite(f func(p []byte)) {
 }
 
 func (c *c16Conn) WriteTo(p []byte, addr net.Addr) (int, error) {
+	if c.refuse.Load() {
+		return 0, errC16Refused
+	}
 	for {
 		c.gmu.Lock()
 		g, dl, ch := c.gate, c.wdl, c.wdlChanged
@@ -519,6 +525,9 @@ type c16Scenario struct {
 	Variant string `json:"variant"`
 	// close | fatal | deadline | hsctx | simul | nohs | none |
 	// closeblk: Close of an established connection whose socket does not take writes |
+	// phpeer / phfatal / phclose: DTLS 1.3, established: the peer's KeyUpdate (early=1: requesting ours) arrives
+	//   while X's socket refuses writes (wblock=1: does not take them); then the peer closes / the peer sends
+	//   a fatal alert / X closes (closers) |
 	// iclose / idl: Close / expired deadline while a Read (early=0) or Write (early=1) of X runs the
 	//   implicit Handshake() (no explicit HandshakeContext call on X) |
 	// access: the state accessors are called at every log point of X during the whole script
@@ -556,6 +565,10 @@ type c16Obs struct {
 	CloseMs   int    `json:"close_ms"`           // closeblk: virtual ms until every Close had returned (-1: one had not after 6 s)
 	Implicit  string `json:"implicit,omitempty"` // iclose/idl: the call of X that runs the implicit Handshake
 	DlHsX     string `json:"dl_hs_x,omitempty"`  // idl: class of that call 100 ms after its deadline expired
+	// phpeer / phfatal / phclose
+	PhReached  bool   `json:"ph_reached"`   // X's state machine failed on (wblock: is blocked in) the ACK of the peer's message
+	PhFsmEnded bool   `json:"ph_fsm_ended"` // X's state machine has ended
+	PhUpdate   string `json:"ph_update"`    // result class of the peer's UpdateKeys (500 ms)
 	// access
 	AccCalls   int      `json:"acc_calls"`
 	AccStateOK int      `json:"acc_state_ok"`
@@ -645,8 +658,10 @@ func c16LeakCheck(base int) (int, string) {
 	}
 	var left []string
 	for i := 0; i < 600; i++ { // goroutines between their last channel operation and their exit
-		if left = c16Leaked(); len(left) == 0 {
-			return 0, ""
+		if i < 20 || i%20 == 0 || i == 599 { // a full stack dump each time is slow when something did leak
+			if left = c16Leaked(); len(left) == 0 {
+				return 0, ""
+			}
 		}
 		runtime.Gosched()
 	}
@@ -778,7 +793,8 @@ func c16Run(t *testing.T, sc c16Scenario) (obs c16Obs) {
 	obs.RdPendP = rdP != nil && !rdP.call.returned()
 	mark := l.lab.Net.count()
 
-	if sc.WBlock && obs.EstX {
+	ph := sc.Event == "phpeer" || sc.Event == "phfatal" || sc.Event == "phclose"
+	if sc.WBlock && obs.EstX && !ph {
 		xw.block()
 		wrX = c16Go(func() error { _, err := X.Conn.Write([]byte("blocked-write-0123456789abcdef")); return err })
 		synctest.Wait()
@@ -855,6 +871,77 @@ func c16Run(t *testing.T, sc c16Scenario) (obs c16Obs) {
 		xw.unblock()
 		synctest.Wait()
 	case "access":
+	case "phpeer", "phfatal", "phclose":
+		// Established DTLS 1.3: a post-handshake message of the peer (KeyUpdate; for k right after the
+		// handshake also the NewSessionTicket still in flight) reaches X while X's socket refuses
+		// writes (wblock: does not take them), so the state machine fails to acknowledge it (wblock:
+		// is still inside that write when Close comes).  Then the peer closes / sends a fatal alert /
+		// X closes: the read loop must have been released by the failing state machine.
+		if obs.EstX && obs.EstP && !obs.ClosedX0 &&
+			dtlsstate.CommonState(X.Conn.state).LocalVersion.Equal(protocol.Version1_3) {
+			if sc.WBlock {
+				xw.block()
+			} else {
+				xw.refuse.Store(true)
+			}
+			uctx, ucancel := context.WithTimeout(context.Background(), 500*time.Millisecond)
+			up := c16Go(func() error {
+				return P.Conn.UpdateKeys(uctx, KeyUpdateOptions{RequestPeerUpdate: sc.Early})
+			})
+			l.drain(8)
+			time.Sleep(600 * time.Millisecond)
+			synctest.Wait()
+			ucancel()
+			obs.PhUpdate = up.class()
+			select {
+			case <-X.Conn.fsm.Done():
+				obs.PhFsmEnded = true
+			default:
+			}
+			obs.PhReached = obs.PhFsmEnded || sc.WBlock
+			xw.refuse.Store(false)
+		}
+		switch sc.Event {
+		case "phpeer":
+			pc := c16Go(P.Conn.Close)
+			synctest.Wait()
+			obs.ClosePP = pc.class()
+			obs.Delivered = l.drain(8) > 0
+			obs.Accepted = X.Conn.isConnectionClosed()
+		case "phfatal":
+			if err := P.Conn.notify(context.Background(), alert.Fatal, alert.InternalError); err == nil {
+				obs.Delivered = l.drain(8) > 0
+			}
+			obs.Accepted = X.Conn.isConnectionClosed()
+		case "phclose":
+			var cl []*c16Call
+			for i := 0; i < sc.Closers; i++ {
+				cl = append(cl, c16Go(X.Conn.Close))
+			}
+			synctest.Wait()
+			if rdX != nil {
+				obs.RdX = rdX.call.class()
+			}
+			for i := 0; i < 12 && sc.WBlock; i++ { // the close_notify write has its 5 s
+				done := true
+				for _, c := range cl {
+					done = done && c.returned()
+				}
+				if done {
+					break
+				}
+				time.Sleep(500 * time.Millisecond)
+				synctest.Wait()
+			}
+			for _, c := range cl {
+				obs.CloseRes = append(obs.CloseRes, c.class())
+			}
+			xw.unblock()
+			synctest.Wait()
+		}
+		if rdX != nil && obs.RdX == "" {
+			obs.RdX = rdX.call.class()
+		}
 	case "fatal":
 		obs.EpP = int(dtlsstate.CommonState(P.Conn.state).LocalEpoch())
 		obs.XKeys = c16CanRead13(X.Conn, uint16(obs.EpP)) //nolint:gosec
@@ -1055,7 +1142,7 @@ func c16After(
 	obs.Texts += strings.Join([]string{hsX.text(), hsP.text()}, ";")
 
 	switch obs.Sc.Event {
-	case "close", "fatal", "simul", "closeblk", "iclose":
+	case "close", "fatal", "simul", "closeblk", "iclose", "phpeer", "phfatal", "phclose":
 		c2 := c16Go(X.Conn.Close)
 		synctest.Wait()
 		obs.Close2X = c2.class()
@@ -1220,6 +1307,18 @@ func c16Scenarios(t *testing.T, emit func(any)) []c16Scenario {
 			}
 			// state accessors at every log point of the whole script
 			out = append(out, c16Scenario{Variant: v, Event: "access", Side: side, K: 1000})
+			// DTLS 1.3: the state machine fails on a received post-handshake message, then the connection ends
+			if v == "v13" || v == "dual13" {
+				for k := n - c16DataSteps - 2; k <= n; k++ {
+					for _, req := range []bool{false, true} {
+						out = append(out,
+							c16Scenario{Variant: v, Event: "phpeer", Side: side, K: k, Early: req},
+							c16Scenario{Variant: v, Event: "phfatal", Side: side, K: k, Early: req},
+							c16Scenario{Variant: v, Event: "phclose", Side: side, K: k, Closers: 1, Early: req},
+							c16Scenario{Variant: v, Event: "phclose", Side: side, K: k, Closers: 2, WBlock: true, Early: req})
+					}
+				}
+			}
 		}
 	}
 
